@@ -50,6 +50,7 @@ def main(tier, seed, replay):
         k.validate_profile("kf_f20", 1, known=("F20",))
         for pol in ("black", "white"):
             k.replay_behaviours(f"TLC_walks_{pol}", mc_consts(policy=pol, kinds=("spawn", "despawn", "setvis", "mutate", "insert", "remove"), ents=("e1", "e2"), clients=("c1", "c2"), ops=8, ticks=6, idle=3, cframes=8), 100, depth=80, extra_monitors=VM, extra_fields=VF)
+            k.replay_behaviours(f"EXH_Vis_{pol}", mc_consts(policy=pol, kinds=("spawn", "despawn", "setvis"), ops=4, ticks=2, idle=1, cframes=0), 0, invariants=inv, extra_monitors=VM, extra_fields=VF)
     else:
         for pol in ("black", "white"):
             k.model_check(f"MC_Vis_{pol}", mc_consts(policy=pol, ops=4, **vis), inv, timeout=3000)
@@ -64,6 +65,8 @@ def main(tier, seed, replay):
         k.validate_profile("kf_f20", 1, known=("F20",))
         for pol in ("black", "white"):
             k.replay_behaviours(f"TLC_walks_{pol}", mc_consts(policy=pol, kinds=("spawn", "despawn", "setvis", "mutate", "insert", "remove"), ents=("e1", "e2"), clients=("c1", "c2"), ops=8, ticks=6, idle=3, cframes=8), 1500, depth=80, extra_monitors=VM, extra_fields=VF)
+            k.replay_behaviours(f"EXH_Vis_{pol}", mc_consts(policy=pol, kinds=("spawn", "despawn", "setvis", "mutate"), ops=5, ticks=2, idle=1, cframes=0), 0, invariants=inv, extra_monitors=VM, extra_fields=VF, timeout=3000)
+            k.replay_behaviours(f"EXH_Vis2_{pol}", mc_consts(policy=pol, clients=("c1", "c2"), kinds=("spawn", "despawn", "setvis"), ops=4, ticks=2, idle=1, cframes=0), 0, invariants=inv, extra_monitors=VM, extra_fields=VF, timeout=3000)
     k.selftest(tr)
     return k.finish(assumptions=[
         "the visible set of a tick is recomputed by the validator from the recorded ClientVisibility state; messages are decoded by the harness's own wire decoder",
